@@ -104,13 +104,16 @@ structure Args where
   supportTemplates : Option (List TemplateFile) -- every file below `--support-templates DIR`
   deriving Repr
 
-/-- What `ArgparseRunner.run` does (`--list-configuration` is not part of this property). -/
-inductive Mode | listOutputs | listInputs | dryRun | generate
+/-- What `ArgparseRunner.run` does.  `listConfiguration`: `_list_configuration_only` prints the resolved configuration
+and calls neither generator. -/
+inductive Mode | listOutputs | listInputs | listConfiguration | dryRun | generate
   deriving DecidableEq, Repr
 
-/-- The `if`/`elif` chain of `ArgparseRunner.run` over `--list-outputs`, `--list-inputs`, `--dry-run`. -/
-def modeOf (listOutputs listInputs dryRun : Bool) : Mode :=
-  if listOutputs then .listOutputs else if listInputs then .listInputs else if dryRun then .dryRun else .generate
+/-- The `if`/`elif` chain of `ArgparseRunner.run` over `--list-outputs`, `--list-inputs`, `--list-configuration`; its
+`else` branch `_generate` hands `--dry-run` to both generators. -/
+def modeOf (listOutputs listInputs listConfiguration dryRun : Bool) : Mode :=
+  if listOutputs then .listOutputs else if listInputs then .listInputs
+  else if listConfiguration then .listConfiguration else if dryRun then .dryRun else .generate
 
 /-- `_NunavutArgumentParser._post_process_args` -/
 def accepted (a : Args) : Bool := !(a.omitSer && a.genSupport == .always)
@@ -355,12 +358,14 @@ def generate (a : Args) (dry : Bool) (tree : List (Entry × OutPath)) : Run :=
 /-- `main` + `ArgparseRunner.__init__` + `run`, generic in the listing method. -/
 def runWith (lo li : Args → List (Entry × OutPath) → Run) (m : Mode) (a : Args) (entries : List Entry) : Run :=
   if !accepted a then { err := some .parserReject } else
-  match buildTree a (treeEntries a entries) with
+  -- `--list-configuration`: `__init__` reads no DSDL (`not self._args.list_configuration`), the tree is the empty root
+  match buildTree a (if m = .listConfiguration then [emptyRoot] else treeEntries a entries) with
   | .error x => { err := some x }
   | .ok tree =>
     match m with
     | .listOutputs => lo a tree
     | .listInputs => li a tree
+    | .listConfiguration => {}
     | .dryRun => generate a true tree
     | .generate => generate a false tree
 
